@@ -328,3 +328,161 @@ theorem mirror_core (n f w : Vec3 ℝ) (A B e : ℝ) (hn : Vec3.dot n n = 1) (hf
   · linear_combination (4 * wn ^ 2) * hn
 
 end K
+
+namespace K
+
+/-! ### "favours the near ear" — the scalar core -/
+
+/-- With `X = w·n > 0` (emitter on the right), `Z = w·f`, `W = |w|² ≥ X² + Z²` and the emitter at
+    least two ear distances away, the cosine seen by the left ear is at most the one seen by the
+    right ear.  `A = cos(π/8) ≥ 1/2`, `B = sin(π/8) ≥ 0`. -/
+theorem favours_core (A B e X Z W : ℝ) (hAB : A ^ 2 + B ^ 2 = 1) (hA : 1 / 2 ≤ A) (he : 0 < e)
+    (hX : 0 < X) (hW : X ^ 2 + Z ^ 2 ≤ W) (hfar : 4 * e ^ 2 ≤ W) :
+    vol (-A * X - B * Z - A * e) (W + 2 * e * X + e ^ 2) ≤ vol (A * X - B * Z - A * e) (W - 2 * e * X + e ^ 2) := by
+  have hee : 0 < e * e := mul_pos he he
+  have hqR : 0 < W - 2 * e * X + e ^ 2 := by nlinarith [sq_nonneg (2 * e - X), sq_nonneg Z]
+  have hqL : 0 < W + 2 * e * X + e ^ 2 := by nlinarith [mul_pos he hX]
+  have hlt : W - 2 * e * X + e ^ 2 < W + 2 * e * X + e ^ 2 := by nlinarith [mul_pos he hX]
+  unfold vol
+  simp only [hqR, hqL, if_true]
+  set qR := W - 2 * e * X + e ^ 2 with hqRd
+  set qL := W + 2 * e * X + e ^ 2 with hqLd
+  set nR := A * X - B * Z - A * e with hnR
+  set nL := -A * X - B * Z - A * e with hnL
+  have hsR : 0 < Real.sqrt qR := Real.sqrt_pos.mpr hqR
+  have hsL : 0 < Real.sqrt qL := Real.sqrt_pos.mpr hqL
+  have hsRL : Real.sqrt qR ≤ Real.sqrt qL := Real.sqrt_le_sqrt hlt.le
+  have hA0 : 0 < A := by linarith
+  have hnLR : nL < nR := by rw [hnL, hnR]; nlinarith [mul_pos hA0 hX]
+  rcases le_or_gt 0 nR with hpos | hneg
+  · rcases le_or_gt nL 0 with hl | hl
+    · exact le_trans (div_nonpos_of_nonpos_of_nonneg hl hsL.le) (div_nonneg hpos hsR.le)
+    · calc nL / Real.sqrt qL ≤ nR / Real.sqrt qL := div_le_div_of_nonneg_right hnLR.le hsL.le
+        _ ≤ nR / Real.sqrt qR := div_le_div_of_nonneg_left hpos hsR hsRL
+  · -- both negative: compare squares
+    have hW0 : 0 ≤ W := by nlinarith [sq_nonneg X, sq_nonneg Z]
+    -- e (B Z + A X) ≤ A W
+    have hkey : e * (B * Z + A * X) ≤ A * W := by
+      rcases le_or_gt (B * Z + A * X) 0 with h0 | h0
+      · nlinarith [mul_nonneg hA0.le hW0, mul_nonpos_of_nonneg_of_nonpos he.le h0]
+      · have hcs : (B * Z + A * X) ^ 2 ≤ W := by nlinarith [sq_nonneg (A * Z - B * X)]
+        have h1 : (e * (B * Z + A * X)) ^ 2 ≤ (A * W) ^ 2 := by
+          have : (e * (B * Z + A * X)) ^ 2 = e ^ 2 * (B * Z + A * X) ^ 2 := by ring
+          rw [this]
+          have h2 : e ^ 2 * (B * Z + A * X) ^ 2 ≤ (W / 4) * W := by
+            apply mul_le_mul (by linarith) hcs (sq_nonneg _) (by linarith)
+          have hA2 : 1 / 4 ≤ A ^ 2 := by nlinarith
+          have h3 : (W / 4) * W ≤ (A * W) ^ 2 := by
+            nlinarith [mul_nonneg (mul_nonneg hW0 hW0) (sub_nonneg.mpr hA2)]
+          linarith
+        exact (abs_le_of_sq_le_sq' h1 (mul_nonneg hA0.le hW0)).2
+    set u := -nR with hu
+    have hupos : 0 < u := by rw [hu]; linarith
+    have heu : e * u ≤ A * qR := by rw [hu, hnR, hqRd]; nlinarith
+    have hbr : 0 ≤ A * u * qR + A ^ 2 * X * qR - e * u ^ 2 := by
+      nlinarith [mul_le_mul_of_nonneg_right heu hupos.le, mul_nonneg (mul_nonneg (sq_nonneg A) hX.le) hqR.le]
+    have hpoly : nR ^ 2 * qL ≤ nL ^ 2 * qR := by
+      have : nL ^ 2 * qR - nR ^ 2 * qL = 4 * X * (A * u * qR + A ^ 2 * X * qR - e * u ^ 2) := by
+        rw [hu, hnL, hnR, hqLd, hqRd]; ring
+      nlinarith [mul_nonneg hX.le hbr]
+    -- (−nR)·√qL ≤ (−nL)·√qR
+    have hm : (-nR) * Real.sqrt qL ≤ (-nL) * Real.sqrt qR := by
+      have hl : 0 ≤ (-nL) * Real.sqrt qR := mul_nonneg (by linarith) hsR.le
+      have hsq : ((-nR) * Real.sqrt qL) ^ 2 ≤ ((-nL) * Real.sqrt qR) ^ 2 := by
+        have e1 : ((-nR) * Real.sqrt qL) ^ 2 = nR ^ 2 * qL := by
+          rw [mul_pow, Real.sq_sqrt hqL.le]; ring
+        have e2 : ((-nL) * Real.sqrt qR) ^ 2 = nL ^ 2 * qR := by
+          rw [mul_pow, Real.sq_sqrt hqR.le]; ring
+        rw [e1, e2]; exact hpoly
+      exact (abs_le_of_sq_le_sq' hsq hl).2
+    rw [div_le_div_iff₀ hsL hsR]
+    linarith
+
+/-! ### the interpolated orientation is a unit quaternion -/
+
+theorem Quat.lerp_normSq (a e : Quat ℝ) (t : ℝ) (ha : Quat.normSq a ≠ 0) (he : Quat.normSq e ≠ 0)
+    (ht0 : 0 ≤ t) (ht1 : t ≤ 1) :
+    let d := Quat.dot4 a e
+    let e' := if signNeg d then Quat.neg e else e
+    let mixed := Quat.add (Quat.scale a (KOps.r32 ((1.0 : ℝ) - t))) (Quat.scale e' t)
+    0 < Quat.normSq mixed ∧ Quat.normSq (Quat.lerp a e t) = 1 := by
+  intro d e' mixed
+  have hNa : 0 < Quat.normSq a := lt_of_le_of_ne (Quat.normSq_nonneg a) (Ne.symm ha)
+  have hNe : 0 < Quat.normSq e := lt_of_le_of_ne (Quat.normSq_nonneg e) (Ne.symm he)
+  have hNe' : Quat.normSq e' = Quat.normSq e := by
+    simp only [e']; split
+    · unfold Quat.normSq Quat.neg; ring
+    · rfl
+  have hd' : 0 ≤ Quat.dot4 a e' := by
+    simp only [e', ClockTime.signNeg_real]
+    by_cases h : d < 0
+    · simp only [h, decide_true, if_true]
+      have : Quat.dot4 a (Quat.neg e) = -d := by simp only [d, Quat.dot4_real, Quat.neg]; ring
+      rw [this]; linarith
+    · simp only [h, decide_false]; exact not_lt.mp h
+  have hmix : Quat.normSq mixed
+      = (1 - t) ^ 2 * Quat.normSq a + t ^ 2 * Quat.normSq e' + 2 * t * (1 - t) * Quat.dot4 a e' := by
+    simp only [mixed, Quat.normSq, Quat.add, Quat.scale, Quat.dot4_real, r32_real, lit_1]; ring
+  have hpos : 0 < Quat.normSq mixed := by
+    rw [hmix, hNe']
+    have h1 : 0 ≤ 2 * t * (1 - t) * Quat.dot4 a e' :=
+      mul_nonneg (mul_nonneg (by linarith) (by linarith)) hd'
+    rcases eq_or_lt_of_le ht0 with h0 | h0
+    · rw [← h0]; nlinarith
+    · nlinarith [mul_pos (mul_pos h0 h0) hNe, mul_nonneg (sq_nonneg (1 - t)) hNa.le]
+  refine ⟨hpos, ?_⟩
+  have hl : Quat.lerp a e t = Quat.normalize mixed := rfl
+  rw [hl]
+  unfold Quat.normalize
+  simp only [r32_real, sqrt_real, Quat.dot4_self]
+  have hs : 0 < Real.sqrt (Quat.normSq mixed) := Real.sqrt_pos.mpr hpos
+  have hss : Real.sqrt (Quat.normSq mixed) * Real.sqrt (Quat.normSq mixed) = Quat.normSq mixed :=
+    Real.mul_self_sqrt hpos.le
+  have : Quat.normSq (⟨mixed.x / Real.sqrt (Quat.normSq mixed), mixed.y / Real.sqrt (Quat.normSq mixed),
+      mixed.z / Real.sqrt (Quat.normSq mixed), mixed.w / Real.sqrt (Quat.normSq mixed)⟩ : Quat ℝ)
+      = Quat.normSq mixed / (Real.sqrt (Quat.normSq mixed) * Real.sqrt (Quat.normSq mixed)) := by
+    unfold Quat.normSq; field_simp
+  rw [this, hss, div_self (ne_of_gt hpos)]
+
+end K
+
+namespace K
+
+/-- the quantities the two ears see, in the listener's frame (`X = w·n`, `Z = w·f`) -/
+theorem ear_dots (n f w : Vec3 ℝ) (A B e : ℝ) (hn : Vec3.dot n n = 1) (hfn : Vec3.dot f n = 0) :
+    Vec3.dot (Vec3.add (Vec3.scale n (-A)) (Vec3.scale f (-B))) (Vec3.add w (Vec3.scale n e))
+        = -A * Vec3.dot w n - B * Vec3.dot w f - A * e
+    ∧ Vec3.dot (Vec3.add (Vec3.scale n A) (Vec3.scale f (-B))) (Vec3.sub w (Vec3.scale n e))
+        = A * Vec3.dot w n - B * Vec3.dot w f - A * e
+    ∧ Vec3.dot (Vec3.add w (Vec3.scale n e)) (Vec3.add w (Vec3.scale n e))
+        = Vec3.dot w w + 2 * e * Vec3.dot w n + e ^ 2
+    ∧ Vec3.dot (Vec3.sub w (Vec3.scale n e)) (Vec3.sub w (Vec3.scale n e))
+        = Vec3.dot w w - 2 * e * Vec3.dot w n + e ^ 2 := by
+  simp only [Vec3.dot_real, Vec3.add_x, Vec3.add_y, Vec3.add_z, Vec3.sub_x, Vec3.sub_y, Vec3.sub_z,
+    Vec3.scale_x, Vec3.scale_y, Vec3.scale_z] at *
+  refine ⟨?_, ?_, ?_, ?_⟩
+  · linear_combination (-A * e) * hn + (-B * e) * hfn
+  · linear_combination (-A * e) * hn + (B * e) * hfn
+  · linear_combination (e ^ 2) * hn
+  · linear_combination (e ^ 2) * hn
+
+/-- Bessel's inequality for two orthonormal axes -/
+theorem bessel2 (n f w : Vec3 ℝ) (hn : Vec3.dot n n = 1) (hf : Vec3.dot f f = 1) (hfn : Vec3.dot f n = 0) :
+    (Vec3.dot w n) ^ 2 + (Vec3.dot w f) ^ 2 ≤ Vec3.dot w w := by
+  have h := Vec3.dot_self_nonneg
+    (Vec3.sub (Vec3.sub w (Vec3.scale n (Vec3.dot w n))) (Vec3.scale f (Vec3.dot w f)))
+  simp only [Vec3.dot_real, Vec3.sub_x, Vec3.sub_y, Vec3.sub_z, Vec3.scale_x, Vec3.scale_y, Vec3.scale_z] at *
+  have key : w.x * w.x + w.y * w.y + w.z * w.z - (w.x * n.x + w.y * n.y + w.z * n.z) ^ 2
+        - (w.x * f.x + w.y * f.y + w.z * f.z) ^ 2
+      = (w.x - n.x * (w.x * n.x + w.y * n.y + w.z * n.z) - f.x * (w.x * f.x + w.y * f.y + w.z * f.z))
+          * (w.x - n.x * (w.x * n.x + w.y * n.y + w.z * n.z) - f.x * (w.x * f.x + w.y * f.y + w.z * f.z))
+        + (w.y - n.y * (w.x * n.x + w.y * n.y + w.z * n.z) - f.y * (w.x * f.x + w.y * f.y + w.z * f.z))
+          * (w.y - n.y * (w.x * n.x + w.y * n.y + w.z * n.z) - f.y * (w.x * f.x + w.y * f.y + w.z * f.z))
+        + (w.z - n.z * (w.x * n.x + w.y * n.y + w.z * n.z) - f.z * (w.x * f.x + w.y * f.y + w.z * f.z))
+          * (w.z - n.z * (w.x * n.x + w.y * n.y + w.z * n.z) - f.z * (w.x * f.x + w.y * f.y + w.z * f.z)) := by
+    linear_combination (-((w.x * n.x + w.y * n.y + w.z * n.z) ^ 2)) * hn
+      + (-((w.x * f.x + w.y * f.y + w.z * f.z) ^ 2)) * hf
+      + (-2 * (w.x * n.x + w.y * n.y + w.z * n.z) * (w.x * f.x + w.y * f.y + w.z * f.z)) * hfn
+  linarith
+
+end K
